@@ -268,7 +268,7 @@ void register_c08(std::vector<Profile>& v)
                        "ThreadContext failure counter", "flush/backtrace control events"};
   p.stub_components = {"recording sinks", "error_notifier capture", "clock (virtual)", "scheduling (simulator)"};
   p.assumptions = {"sequentially consistent atomics", "the integer following 'Dropped' in a notifier message is the reported count"};
-  p.quick_runs = 3000;
+  p.quick_runs = 24000;
   p.thorough_runs = 400000;
   v.push_back(p);
 }
